@@ -163,8 +163,12 @@ func callGraphJSON(ast *syntax.Ast) string {
 	}
 	g, err := ast.MakeCallGraph("ID.", ast.Call)
 	if err != nil {
+		// the order in which several messages are listed is C10's subject:
+		// compare the messages as a set of words here
 		t := locRe.ReplaceAllString(err.Error(), "")
-		return "ERR:" + strings.Join(strings.Fields(t), "")
+		words := strings.Fields(t)
+		sort.Strings(words)
+		return "ERR:" + strings.Join(words, "")
 	}
 	b, err := json.Marshal(g)
 	if err != nil {
